@@ -9,7 +9,7 @@ EXPLANATION = (
     "deactivate, and a restart event iff a time was given, at that time; (R4) module_restart sets active := true before the "
     "start-up stages and runs at_sim_start for every stage of 0..num_sim_start_stages; (R5) ModuleRef::reset rebuilds the async "
     "runtime before running the user's reset; (R6) the active flag is written only by the shutdown protocol (false), module_restart "
-    "(true) and the panic harness (false). (R7) the timer bookkeeping of ModuleRef::activate (bump, clearing a reached next_wakeup, installing the driver) does not depend on the module's active flag — a stale wake-up or the restart event must still clear the recorded wake-up time. Decides these necessary conditions only; not timelines of arrivals, deadlines and restarts.")
+    "(true) and the panic harness (false). (R7) the timer bookkeeping of ModuleRef::activate (bump, clearing a reached next_wakeup, installing the driver) does not depend on the module's active flag — a stale wake-up or the restart event must still clear the recorded wake-up time. (R8) the pending shutdown request is set only by the ModuleContext::shutdown* API and taken only by buf_process. Decides these necessary conditions only; not timelines of arrivals, deadlines and restarts.")
 ASSUMPTIONS = ["dropping the tokio runtime cancels its tasks and their timers (Rt::shutdown replaces the runtime)"]
 
 EV = 'des::net::runtime::events::'
@@ -274,7 +274,42 @@ def r6_writers_of_active(ctx):
     ctx.floor('writers of the active flag', n, 3)
 
 
+def r8_request_consumers(ctx):
+    """the pending shutdown request is produced by the shutdown* API of ModuleContext and consumed by buf_process only: nobody else may
+    take or overwrite it (a request issued during the restart event itself must survive until the end of that event)"""
+    ctx.set_rule('C09.R8')
+    P = ctx.P
+    consumer = {g.key for g in P.scope_of('des::net::runtime::ctx::buf_process')}
+    producers_prefix = 'des::net::module::ctx::ModuleContext::'
+    n = 0
+    for f in P.fn_list:
+        if f.kind == 'promoted' or not f.key.startswith(('des::net', '<des::net')):
+            continue
+        owner = f.key if f.kind != 'closure' else (f.root or f.parent or f.key)
+        for s in f.calls():
+            if not s.args:
+                continue
+            last = s.name.split('::')[-1]
+            if last not in ('take', 'replace', 'insert', 'get_or_insert', 'get_or_insert_with', 'clear', 'take_if'):
+                continue
+            t = f.expr_operand(s.args[0], s.b, 'T')
+            if not any(x[0] == 'field' and x[2] == 'shutdown_task' for x in walk(t)):
+                continue
+            n += 1
+            ok = owner in consumer if last in ('take', 'take_if', 'clear') else owner.startswith(producers_prefix)
+            ctx.check(ok, 'request-access:%s:%s' % (owner.split('::')[-1], last),
+                      'the shutdown request is taken only by buf_process (end of the event) and set only by the ModuleContext::shutdown* API', s.where(), s.name)
+        for (b, i, st) in [(b, i, st) for b in sorted(f.reachable()) for i, st in enumerate(f.stmts(b)) if st['k'] == 'assign' and st['p']['pr'] and st['p']['pr'][-1]['k'] == 'deref']:
+            dst = f.expr_place({'l': st['p']['l'], 'pr': st['p']['pr'][:-1]}, b, i)
+            if any(x[0] == 'field' and x[2] == 'shutdown_task' for x in walk(dst)):
+                n += 1
+                ctx.check(owner.startswith(producers_prefix) or owner in consumer, 'request-access:%s:store' % owner.split('::')[-1],
+                          'the shutdown request is written only by the ModuleContext::shutdown* API (and consumed by buf_process)', f.where(b))
+    ctx.floor('accesses to the shutdown request', n, 3)
+
+
 def run(ctx):
+    r8_request_consumers(ctx)
     r1_inert_handlers(ctx)
     r2_transit_guard(ctx)
     r3_shutdown_protocol(ctx)
